@@ -781,6 +781,19 @@ fn blame_hang(rep: &RunReport, live: Live, out: &mut Vec<Violation>, verdict: &m
     let full = live == Live::Full;
     let _ = min_pool_of(world);
 
+    // a thread is still inside the drop of a pipe's output stream
+    for e in world.events.iter().filter(|e| e.code == "out_dropped") {
+        let out_id = e.a as usize;
+        if world.events.iter().any(|d| d.code == "out_drop_done" && d.a == e.a && d.seq > e.seq) {
+            continue;
+        }
+        let o = world.outs.get(out_id).and_then(|os| os.src).and_then(|s| world.streams[s].obj).unwrap_or(0);
+        v(out, "C16", "dropping_output_stream_never_returned", &[], e.seq, format!("the drop of pipe output {} never returned: {}", out_id, where_));
+        if world.objs[o].table_dropped_at.is_some() && world.objs[o].value_drops == 0 {
+            v(out, "C05", "drop_never_returned", &[], e.seq, format!("the last owner of object {} was released inside the drop of pipe output {} and that drop never returned; the value was never destroyed: {}", o, out_id, where_));
+        }
+        return;
+    }
     // a caller asked for surplus pool threads to be despawned and is still waiting for that call to return
     let desp_inv = world.events.iter().filter(|e| e.code == "despawn_inv").count();
     let desp_ret = world.events.iter().filter(|e| e.code == "despawn_ret").count();
@@ -989,6 +1002,22 @@ fn blame_hang(rep: &RunReport, live: Live, out: &mut Vec<Violation>, verdict: &m
                 }
                 v(out, prop, "awaiting_task_never_resolved", &[opid], r.fin.unwrap(), format!("task {} awaits handle {} of finished {} {} and was never given the result: {}", t, h, r.tag, opid, where_));
                 props_found += 1;
+            }
+            // one context, no pool thread: whatever it awaits it runs itself, so an await that makes no progress is a
+            // violation unless the operation is legitimately suspended (gate closed) or held by an unreleased suspension
+            if live == Live::SingleContext && matches!(hr.kind, Kind::FutureDesync | Kind::After) && r.fin.is_none() && hr.resolved_at.is_none() {
+                let o = r.obj.unwrap_or(0);
+                let held = world.hrec.iter().any(|s| s.kind == Kind::Suspend && s.op.map_or(false, |sid| ops[sid as usize].obj == Some(o)) && s.resolved_at.is_some() && s.resumed_at.is_none());
+                let gate_closed = ops.iter().any(|x| x.obj == Some(o) && x.start.is_some() && x.fin.is_none() && x.waiting_gate.map_or(false, |g| !world.gates[g].open && x.waiting_gate_alt.map_or(true, |g2| !world.gates[g2].open)));
+                if !held && !gate_closed {
+                    let qstate = facts.queue_peeks.iter().find(|p| p.0 == o).and_then(|p| p.1).map(|p| p.0);
+                    v(out, "C07", "awaiting_made_no_progress", &[opid], 0, format!("the only context awaits handle {} of {} {} on object {} (queue state tag {:?}) with no pool thread, and nothing runs the queue: {}", h, r.tag, opid, o, qstate, where_));
+                    let resumed = world.hrec.iter().any(|s| s.kind == Kind::Suspend && s.op.map_or(false, |sid| ops[sid as usize].obj == Some(o)) && s.resumed_at.is_some());
+                    if resumed && matches!(qstate, Some(3) | Some(4) | Some(5)) {
+                        v(out, "C06", "resume_did_not_restart_queue", &[opid], 0, format!("object {} was suspended and resumed, but its queue is still parked (state tag {:?}) and nothing runs what is queued behind the suspension: {}", o, qstate, where_));
+                    }
+                    props_found += 1;
+                }
             }
             if hr.kind == Kind::Suspend && hr.resolved_at.is_none() {
                 let o = r.obj.unwrap_or(0);
